@@ -38,8 +38,8 @@ fn content_types() -> Vec<(&'static str, Vec<&'static [u8]>)> {
 
 const UNKNOWN_LABELS: [&str; 3] = ["bogus", "utf-9", "x-no-such-charset"];
 
-fn plist(index: u64) -> Vec<(Vec<u8>, Vec<u8>)> {
-    enumr::seq_decode(index, 6, 2)
+fn plist(index: u64, max_pairs: u32) -> Vec<(Vec<u8>, Vec<u8>)> {
+    enumr::seq_decode(index, 6, max_pairs)
         .into_iter()
         .map(|s| (PNAMES[(s / 3) as usize].to_vec(), PVALUES[(s % 3) as usize].to_vec()))
         .collect()
@@ -124,7 +124,8 @@ pub fn run(ctx: &Ctx) -> Report {
     let thorough = ctx.tier.thorough();
     let cts = content_types();
     let n_ct = cts.len() as u64;
-    let n_lists = enumr::seq_count(6, 2); // 43
+    let max_pairs: u32 = if thorough { 3 } else { 2 };
+    let n_lists = enumr::seq_count(6, max_pairs); // 43 / 259
     let opts: u64 = 3; // off, on, on+s3
     let total = n_lists * n_lists * n_ct * opts * 2;
     let now = e2e::base_instant();
@@ -137,9 +138,9 @@ pub fn run(ctx: &Ctx) -> Report {
         x /= opts;
         let (ct_label, ct_vals) = &cts[(x % n_ct) as usize];
         x /= n_ct;
-        let body_params = plist(x % n_lists);
+        let body_params = plist(x % n_lists, max_pairs);
         x /= n_lists;
-        let url_params = plist(x);
+        let url_params = plist(x, max_pairs);
         if !thorough && carrier == Carrier::Query && (i / 2) % 3 != 0 {
             return; // quick: query carrier on a third of the space
         }
@@ -371,7 +372,7 @@ pub fn run(ctx: &Ctx) -> Report {
     Report {
         stats: st,
         rule: format!(
-            "(1) every URL parameter list x every body parameter list, each of 0..2 pairs over names {{a,b}} x values {{1,2,empty}} (all same-name-in-both patterns) x {} content-type spellings (absent, exact, charset utf-8/UTF-8/utf8, extra parameter, valueless charset, iso-8859-1, bogus, case variant, longer type, text/plain, json, two headers in both orders, padded) x {{fold off, fold on, fold on + S3}} x carrier; each case signed two ways — F (body parameters as if appended to the URL, payload = empty) and V (URL only, payload = body) — and both judged by the reference verifier; returned body / URI compared with the statement; F and V never both accepted unless identical; (2) 133 undecodable bodies and 3 unknown charset labels x 3 bodies => InvalidBodyEncoding/400 with the provider untouched; (3) where folding does not apply, every single-bit flip of every body byte (4 bodies incl. all 256 byte values), an append and a truncation are refused. states = distinct reference canonical requests",
+            "(1) every URL parameter list x every body parameter list, each of 0..2 (thorough: 0..3) pairs over names {{a,b}} x values {{1,2,empty}} (all same-name-in-both patterns) x {} content-type spellings (absent, exact, charset utf-8/UTF-8/utf8, extra parameter, valueless charset, iso-8859-1, bogus, case variant, longer type, text/plain, json, two headers in both orders, padded) x {{fold off, fold on, fold on + S3}} x carrier; each case signed two ways — F (body parameters as if appended to the URL, payload = empty) and V (URL only, payload = body) — and both judged by the reference verifier; returned body / URI compared with the statement; F and V never both accepted unless identical; (2) 133 undecodable bodies and 3 unknown charset labels x 3 bodies => InvalidBodyEncoding/400 with the provider untouched; (3) where folding does not apply, every single-bit flip of every body byte (4 bodies incl. all 256 byte values), an append and a truncation are refused. states = distinct reference canonical requests",
             n_ct
         ),
         bounds: json!({"url_lists": n_lists, "body_lists": n_lists, "content_types": n_ct, "bit_flip_cases": n3}),
